@@ -241,8 +241,11 @@ pub fn run(ctx: &mut Ctx) {
                     let _ = block_on(pm.get_tile_by_id_async(*a));
                     mon.core.lock().expect("lock").fail_once_at = None;
                     let from = mon.log_len();
-                    if let Ok(Some(_)) = block_on(pm.get_tile_by_id_async(*b)) {
+                    if let Ok(Some(got)) = block_on(pm.get_tile_by_id_async(*b)) {
                         let (off, len) = c.truth[b];
+                        if got != c.bytes[off as usize..off as usize + len as usize] {
+                            return Err(format!("tile {b} differs from the addressed bytes after a failed lookup"));
+                        }
                         if check_lookup_ops(ctx, "PMTiles::get_tile_by_id_async", *b, off, len, &mon.ops_since(from), &mat) {
                             ctx.count("lookups_exact_after_a_failed_lookup");
                         }
@@ -287,10 +290,28 @@ pub fn run(ctx: &mut Ctx) {
                     let _ = pm.get_tile_by_id(*a);
                     mon.core.lock().expect("lock").fail_once_at = None;
                     let from = mon.log_len();
-                    if let Ok(Some(_)) = pm.get_tile_by_id(*b) {
+                    if let Ok(Some(got)) = pm.get_tile_by_id(*b) {
                         let (off, len) = c.truth[b];
+                        if got != c.bytes[off as usize..off as usize + len as usize] {
+                            return Err(format!("tile {b} differs from the addressed bytes after a failed lookup"));
+                        }
                         if check_lookup_ops(ctx, "PMTiles::get_tile_by_id", *b, off, len, &mon.ops_since(from), &mat) {
                             ctx.count("lookups_exact_after_a_failed_lookup");
+                        }
+                    }
+                }
+                // after an edit of the opened archive (an unrelated id is added and another removed), a reader-backed tile is looked
+                // up twice: both lookups read exactly its range
+                if let Some(b) = ids.iter().rev().find(|i| **i >= range.0 && **i <= range.1) {
+                    let _ = pm.add_tile(u64::MAX - 77, vec![1u8, 2, 3]);
+                    pm.remove_tile(u64::MAX - 77);
+                    for _ in 0..2 {
+                        let from = mon.log_len();
+                        if let Ok(Some(_)) = pm.get_tile_by_id(*b) {
+                            let (off, len) = c.truth[b];
+                            if check_lookup_ops(ctx, "PMTiles::get_tile_by_id", *b, off, len, &mon.ops_since(from), &mat) {
+                                ctx.count("lookups_exact_after_an_edit");
+                            }
                         }
                     }
                 }
